@@ -1,6 +1,7 @@
 """C05 - DBC round trip is lossless and its output is a fixed point."""
 import contextlib
 import io
+import copy as _copy
 import json
 import re
 
@@ -11,7 +12,7 @@ from lib import dbcsnap
 from lib import matrices as M
 
 PID = "C05"
-EXTRA_PROPS = ("Num", "C05b", "C05c", "C05d", "C05e", "C05f", "C05g", "C05h", "C05i", "C05j")
+EXTRA_PROPS = ("Num", "C05b", "C05c", "C05d", "C05e", "C05f", "C05g", "C05h", "C05i", "C05j", "C05k")
 RULE = ("case 'rt' = a generated matrix of DBC-expressible content (identifier names incl. names longer than 32 characters, ECU names "
         "of >= 2 characters, standard/extended ids, CAN FD and J1939 frames, simple and extended multiplexing, float signals, limits, "
         "start values inside the limits and on the raw grid, cycle times, value tables with quotes, comments over several lines with "
@@ -108,6 +109,56 @@ def real_blocks(lines, enc):
     return res
 
 
+class _CopyShim(object):
+    """stands in for the module `copy` inside formats/dbc.py while the file is written: the matrix `dump` works on (its deep copy of the
+    caller's matrix, with the definitions and attributes the writer adds) is kept for the attribute sections of the core writer model"""
+
+    def __init__(self):
+        self.first = None
+
+    def deepcopy(self, x, *a):
+        y = _copy.deepcopy(x, *a)
+        if self.first is None and isinstance(x, canmatrix.CanMatrix):
+            self.first = y
+        return y
+
+    def __getattr__(self, n):
+        return getattr(_copy, n)
+
+
+def attr_section(work):
+    """the attribute definitions, defaults, ECU attributes and matrix attributes of the writer's working matrix, in the order and with the
+    value texts `dump` writes (definitions level by level sorted by name; one default per name, the first level wins, sorted by name;
+    texts of STRING attributes in quotes); None when a text holds a line break (those files are decided by the whole-file round trip)"""
+    try:
+        defs, defaults = [], {}
+        for lvl, dd in (("frame", work.frame_defines), ("signal", work.signal_defines), ("ecu", work.ecu_defines), ("env", work.env_defines),
+                        ("global", work.global_defines)):
+            for name, d in sorted(dd.items()):
+                defs.append({"level": lvl, "name": name, "definition": d.definition})
+                if name not in defaults and d.defaultValue is not None:
+                    defaults[name] = {"name": name, "text": d.type in ("ENUM", "STRING"), "value": str(d.defaultValue)}
+
+        def written(v, is_string):
+            if is_string:
+                return '"' + v + '"'
+            if v is None:
+                return '""'
+            return str(v)
+        ecus = {}
+        for e in work.ecus:
+            ecus.setdefault(e.name, [])
+            ecus[e.name] += [[k, written(v, work.ecu_defines[k].type == "STRING")] for k, v in sorted(e.attributes.items())]
+        ga = [[k, written(v, work.global_defines[k].type == "STRING")] for k, v in sorted(work.attributes.items())]
+        sec = {"defs": defs, "defaults": [defaults[k] for k in sorted(defaults)], "gattrs": ga, "ecuattrs": ecus,
+               "ecunames": [e.name for e in work.ecus]}
+        if any(ch in json.dumps(sec) for ch in ("\\n", "\\r")):
+            return None
+        return sec
+    except Exception:  # noqa
+        return None
+
+
 def run(desc):
     key = json.dumps(desc, sort_keys=True)
     if key in _cache:
@@ -116,7 +167,13 @@ def run(desc):
     try:
         db = G.build(desc)
         enc, cenc = desc["enc"], desc.get("cenc", desc["enc"])
-        b1 = M.export_bytes(db, "dbc", dbcExportEncoding=enc, dbcExportCommentEncoding=cenc)
+        shim = _CopyShim()
+        canmatrix.formats.dbc.copy = shim
+        try:
+            b1 = M.export_bytes(db, "dbc", dbcExportEncoding=enc, dbcExportCommentEncoding=cenc)
+        finally:
+            canmatrix.formats.dbc.copy = _copy
+        res["attrsec"] = attr_section(shim.first) if shim.first is not None else None
         dbs, out = M.import_bytes(b1, "dbc", dbcImportEncoding=enc, dbcImportCommentEncoding=cenc)
         db2 = list(dbs.values())[0] if isinstance(dbs, dict) else dbs
         b2 = M.export_bytes(db2, "dbc", dbcExportEncoding=enc, dbcExportCommentEncoding=cenc)
@@ -199,8 +256,15 @@ def cases_of(desc, rng=None):
         return
     yield {"op": "file", "c": {"m": desc, "blocks": r["blocks"]}}
     # the core of the writer (frame section, BO_TX_BU_ lines, frame comments, signal comments) against Model/DbcFile.lean writeCore
-    yield {"op": "core", "c": {"m": desc, "frames": core_frames(r["db"], r["blocks"]),
-                               "ecus": [{"name": e.name[:32], "comment": (e.comment or None)} for e in r["db"].ecus]}}
+    cc = {"m": desc, "frames": core_frames(r["db"], r["blocks"]),
+          "ecus": [{"name": e.name[:32], "comment": (e.comment or None)} for e in r["db"].ecus]}
+    sec = r.get("attrsec")
+    if sec is not None and sec["ecunames"] == [e["name"] for e in cc["ecus"]] and len(set(sec["ecunames"])) == len(sec["ecunames"]):
+        # attribute definitions, defaults, ECU attributes and matrix attributes (Model/DbcFile.lean writeCoreD)
+        for e in cc["ecus"]:
+            e["attrs"] = sec["ecuattrs"].get(e["name"], [])
+        cc.update({"defs": sec["defs"], "defaults": sec["defaults"], "gattrs": sec["gattrs"]})
+    yield {"op": "core", "c": cc}
     # the file as a whole against the reader model of Model/DbcFile.lean: as written, and damaged (lines inserted, dropped, cut)
     for variant in range(3):
         vseed = rng.randrange(1 << 30) if rng is not None else 1
@@ -414,6 +478,10 @@ def observe_core(c, r):
         out = (lines[k:k + 2] if k is not None else []) + out
         kinds = ("CM_ BO_ ", "CM_ SG_ ", "CM_ BU_ ")
     out += [l for l in lines if l.startswith("BO_TX_BU_ ")]
+    attr = []
+    if c.get("defs") is not None:
+        attr = [l for l in lines if l.startswith("BA_DEF_ ")] + [l for l in lines if l.startswith("BA_DEF_DEF_ ")]
+        attr += [l for l in lines if re.match(r'BA_ "[^"]*" BU_ ', l)] + [l for l in lines if re.match(r'BA_ "[^"]*"   ', l)]
     vals = [l for l in lines if re.match(r"VAL_ \d+ ", l)]
     vals += [l for l in lines if l.startswith("SIG_VALTYPE_ ")] + [l for l in lines if l.startswith("SIG_GROUP_ ")] + [l for l in lines if l.startswith("SG_MUL_VAL_ ")]
     for kind in kinds:
@@ -425,7 +493,7 @@ def observe_core(c, r):
                     k += 1
                     out.append(lines[k])
             k += 1
-    return {"core": out + vals}
+    return {"core": out + attr + vals}
 
 
 def observe_post(c, r):
@@ -727,6 +795,13 @@ def features(case, impl):
                 yield "core:ecu-comment"
             if any(e["comment"] and "\n" in e["comment"] for e in c["ecus"]):
                 yield "core:ecu-comment-over-several-lines"
+        if c.get("defs") is not None:
+            yield "core:defs=%d" % min(len(c["defs"]) // 4 * 4, 20)
+            yield "core:defaults=%d" % min(len(c["defaults"]) // 4 * 4, 20)
+            if c["gattrs"]:
+                yield "core:matrix-attributes"
+            if any(e.get("attrs") for e in c["ecus"]):
+                yield "core:ecu-attributes"
         if any(f["more"] for f in c["frames"]):
             yield "core:several-senders"
         if any(f["comment"] and "\n" in f["comment"] for f in c["frames"]) or any(s["comment"] and "\n" in s["comment"] for f in c["frames"] for s in f["sigs"]):
